@@ -27,6 +27,21 @@ Theorem C17_status_zero_iff_success : forall ed_verify sha256 t u z,
   (z = 0%Z <-> cli_verify_metadata ed_verify sha256 t u = Exit 0 true).
 Proof. exact status_zero_iff_success. Qed.
 
+(* the same statement about the two FILES as they are on disk: loading (json.load on the binary file: encoding guess, byte-order mark,
+   UTF-8 with surrogatepass, the parser of C07) is part of the model; a missing or unloadable file is an error *)
+Theorem C17_files_exit_zero_iff : forall ed_verify sha256 tf uf,
+  cli_verify_metadata_files ed_verify sha256 tf uf = Exit 0 true <->
+  exists tb ub t' u', tf = Some tb /\ uf = Some ub /\ CCT.JsonParse.load_file tb = Ok t' /\ CCT.JsonParse.load_file ub = Ok u' /\
+    exists sd ty, subscript u' (U"signed") = Ok sd /\ subscript sd (U"type") = Ok ty /\
+      ((ty = VStr (U"root") /\ verify_root ed_verify sha256 t' u' = Ok tt)
+       \/ (ty <> VStr (U"root") /\ verify_delegation ed_verify sha256 ty u' t' (VBool false) = Ok tt)).
+Proof. exact files_exit_zero_iff. Qed.
+
+Theorem C17_files_status_zero_iff_success : forall ed_verify sha256 tf uf z,
+  status (cli_verify_metadata_files ed_verify sha256 tf uf) = Some z ->
+  (z = 0%Z <-> cli_verify_metadata_files ed_verify sha256 tf uf = Exit 0 true).
+Proof. exact files_status_zero_iff_success. Qed.
+
 Theorem C17_reject_codes : forall ed_verify sha256 t u c b,
   cli_verify_metadata ed_verify sha256 t u = Exit c b -> (c = 0%Z /\ b = true) \/ ((c = 10%Z \/ c = 20%Z) /\ b = false).
 Proof. exact reject_codes. Qed.
@@ -108,6 +123,8 @@ Proof. reflexivity. Qed.
 Print Assumptions C17_codes_frozen.
 Print Assumptions C17_verify_exit_zero_iff.
 Print Assumptions C17_status_zero_iff_success.
+Print Assumptions C17_files_exit_zero_iff.
+Print Assumptions C17_files_status_zero_iff_success.
 Print Assumptions C17_reject_codes.
 Print Assumptions C17_entry_points_faithful.
 Print Assumptions C17_sign_zero_only_if_signed.
